@@ -64,9 +64,13 @@ def random_spec(rng):
         seed = int(rng.choice([0, 0, 1, 2 ** 31 - 1, 2 ** 32 - 1, 2 ** 32, 2 ** 63 - 1]))   # boundary seeds
     spec = {"gen": k, "fs": fs, "seed": seed,
             "psd": float(10 ** rng.uniform(-2, 2)), "fmin": fmin,
-            "fmax": fs * float(rng.choice([0.5, 0.25, 0.1])),
+            "fmax": fs * float(rng.choice([0.5, 0.25, 0.1])),   # narrow bands: below
             "alpha": float(rng.choice([0.01, 0.5, 1.0, 1.3, 2.0])),
             "init": bool(rng.random() < 0.4)}
+    if rng.random() < 0.2:
+        # narrow shaping bands: fmax / fmin from 1.05 to 8 (cascades of one or two sections)
+        spec["fmin"] = fs * float(rng.choice([0.01, 0.05, 0.1]))
+        spec["fmax"] = min(fs * 0.5, spec["fmin"] * float(rng.choice([1.05, 1.3, 1.6, 1.7, 2.5, 8.0])))
     return spec
 
 
